@@ -3,7 +3,7 @@ every real call becomes a trace validated by TraceCircuit.tla (code -> spec)."""
 from . import core, impl, models, orbits, par, workers, tlc
 from .tlc import MachineryError
 
-FORMATS = ["matrices", "strings", "matrices-wide", "strings-minus", "matrices-nosign", "reused"]
+FORMATS = ["matrices", "strings", "matrices-wide", "strings-minus", "matrices-nosign", "reused", "matrices-bool"]
 
 
 def _fmt_input(inp, fmt):
@@ -158,6 +158,25 @@ def sign_sweep_jobs(inputs, api, rng, per_n=None):
             vectors = list(range(1 << n)) if n <= 4 else sorted({0, (1 << n) - 1} | {rng.randrange(1 << n) for _ in range(6)})
             for conn in impl.conns(n):
                 out.append({"n": n, "codes": inp["codes"], "conn": conn, "api": api, "vectors": vectors})
+    return out
+
+
+def conn_sweep_jobs(inputs, apis, rng, per_n=None):
+    """a few inputs per register size; for each ONE Stabilizer object and ONE circuit object go through every connectivity of that size (in a seeded order,
+    the first one once more at the end) and through the given APIs, in ONE worker process: results must not depend on what the same object was asked before"""
+    per_n = per_n or {2: 3, 3: 4, 4: 4, 5: 4, 6: 4}
+    out = []
+    for n in range(2, 7):
+        cand = [i for i in inputs if i["n"] == n and i.get("program") is not None and i.get("codes") and not i.get("only_conn")]
+        for _ in range(per_n[n] if cand else 0):
+            inp = cand[rng.randrange(len(cand))]
+            conns = list(impl.conns(n))
+            rng.shuffle(conns)
+            calls = []
+            for c in conns + conns[:1]:
+                for a in apis:
+                    calls.append((a, c))
+            out.append({"n": n, "codes": inp["codes"], "program": inp["program"], "calls": calls, "src": inp.get("src", ""), "rep": inp.get("rep", -1)})
     return out
 
 
